@@ -12,8 +12,8 @@ def program(a):
     ty = f"{quals}fn(u64, u64) -> {R}"
     opts = []
     if a["when"]: opts.append("when: a == 7 && b == 1")
-    if a["assign"]: opts.append("assign: { ASSIGNS.fetch_add(1, SeqCst); SEEN.store(a as usize, SeqCst); }")
-    if a["returns"]: opts.append("returns: { EVALS.fetch_add(1, SeqCst); 9000 + a + EVALS.load(SeqCst) as u64 }")
+    if a["assign"]: opts.append("assign: { ASSIGNS.fetch_add(1, SeqCst); SEEN.store(a as usize, SeqCst); A_STAMP.store(CLOCK.fetch_add(1, SeqCst) + 1, SeqCst); }")
+    if a["returns"]: opts.append("returns: { EVALS.fetch_add(1, SeqCst); R_STAMP.store(CLOCK.fetch_add(1, SeqCst) + 1, SeqCst); 9000 + a + EVALS.load(SeqCst) as u64 }")
     if a["times"]: opts.append(f"times: {N}")
     call = "unsafe { f(a, 1) }" if a["m_unsafe"] else "f(a, 1)"
     body = "{ std::hint::black_box((a, b)); }" if a["m_unit"] else "{ std::hint::black_box(b); 100 + a }"
@@ -28,6 +28,9 @@ use std::sync::atomic::{{AtomicUsize, Ordering::SeqCst}};
 static ASSIGNS: AtomicUsize = AtomicUsize::new(0);
 static EVALS: AtomicUsize = AtomicUsize::new(0);
 static SEEN: AtomicUsize = AtomicUsize::new(0);
+static CLOCK: AtomicUsize = AtomicUsize::new(0);
+static A_STAMP: AtomicUsize = AtomicUsize::new(0);
+static R_STAMP: AtomicUsize = AtomicUsize::new(0);
 #[inline(never)] {quals}fn target(a: u64, b: u64) -> {R} {body}
 fn call(a: u64) -> {R} {{ let f: {ty} = std::hint::black_box(target); {call} }}
 fn class(m: &str) -> &'static str {{ if m.contains("more times than expected") {{ "over" }} else if m.contains("unexpected arguments") {{ "args" }} else if m.contains("was expected to be called") {{ "count" }} else {{ "other" }} }}
@@ -45,7 +48,7 @@ fn main() {{
         let r = catch_unwind(|| call(*a));
         let (da, de) = (ASSIGNS.load(SeqCst) - a0, EVALS.load(SeqCst) - e0);
         match r {{
-            Ok(v) => println!("ret assigns={{da}} evals={{de}} seen={{}} value={{}}", SEEN.load(SeqCst), {val}),
+            Ok(v) => println!("ret assigns={{da}} evals={{de}} seen={{}} value={{}} order={{}}", SEEN.load(SeqCst), {val}, if da == 1 && de == 1 {{ if A_STAMP.load(SeqCst) < R_STAMP.load(SeqCst) {{ "assign-first" }} else {{ "returns-first" }} }} else {{ "-" }}),
             Err(e) => println!("{{}} assigns={{da}} evals={{de}}", class(&msg(&e))),
         }}
     }}
